@@ -25,7 +25,7 @@ use poulpy_core::{
     },
 };
 use poulpy_hal::{
-    api::{ScratchOwnedAlloc, ScratchOwnedBorrow},
+    api::{ScratchOwnedBorrow},
     layouts::{DeviceBuf, Module, NoiseInfos, ScratchOwned, ToOwnedDeep, VecZnx, ZnxInfos, ZnxView, ZnxViewMut},
     source::Source,
 };
@@ -256,7 +256,7 @@ pub const LIN_OPS: [&str; 4] = ["glwe_mul_const", "glwe_mul_const_assign", "glwe
 
 fn run_lin<B: FullBackend>(m: &Module<B>, c: &Case) -> Verdict {
     let n = m.n();
-    let mut scratch = ScratchOwned::<B>::alloc(SCRATCH);
+    let mut scratch = pzv_be::dirty_scratch::<B>(SCRATCH);
     let op = (c.op % 4) as usize;
     let opn = LIN_OPS[op];
     let r = c.rank as usize;
@@ -345,7 +345,7 @@ fn tensor_tol(c: &Case, mn: usize, mono: &[Vec<i64>], cols: usize, n: usize, rl:
 
 fn run_tensor<B: FullBackend>(m: &Module<B>, c: &Case) -> Verdict {
     let n = m.n();
-    let mut scratch = ScratchOwned::<B>::alloc(SCRATCH);
+    let mut scratch = pzv_be::dirty_scratch::<B>(SCRATCH);
     let op = (c.op % 3) as usize;
     let opn = TEN_OPS[op];
     let r = c.rank as usize;
@@ -470,7 +470,7 @@ pub fn build_tk<B: FullBackend>(m: &Module<B>, c: &Case, sk: &GLWESecret<Vec<u8>
 
 fn run_relin<B: FullBackend>(m: &Module<B>, c: &Case) -> Verdict {
     let n = m.n();
-    let mut scratch = ScratchOwned::<B>::alloc(SCRATCH);
+    let mut scratch = pzv_be::dirty_scratch::<B>(SCRATCH);
     let opn = "glwe_tensor_relinearize";
     let r = c.rank as usize;
     let sk = secret(n, r, c.dist, c.seed);
